@@ -134,7 +134,7 @@ def run(ctx):
       few = None
     kw = dict(max_iter=max_iter, output_iter=out_iter,
               batch_size=int(rng.integers(1, 14)) if (few is None or rng.random() < 0.3) else few + int(rng.integers(1, 6)),
-              beta=float(rng.choice([1e-5, 1e-3])), gamma=float(rng.choice([5e-3, 5e-2, 0.5])),
+              beta=float(rng.choice([1e-5, 1e-3])), gamma=float(rng.choice([5e-3, 5e-2, 0.5, 0.5, 1e10, 1e12])),      # the weights scale as 1 / gamma: down to 1e-12 and below
               n_basis=int(rng.integers(d + 1, 5 * d)), random_state=int(rng.integers(0, 1000)))
     bkind = ['triplet_diffs', 'lda', 'array'][int(rng.integers(0, 3))]
     if name == 'SCML' and bkind == 'lda':
